@@ -56,6 +56,17 @@ BUILDS = {
     },
     # agent-slice: real agent sources compiled against the environment model of stun-rs
     "slice": {"dir": "../agent-slice", "features": None, "inject": []},
+    # agentshim: the WHOLE real stun-agent crate compiled against the environment model of stun-rs
+    "agentshim": {
+        "dir": "../agent-shim",
+        "features": None,
+        "inject": [
+            ("src/st_cred_mech.rs", "verif_st.rs"),
+            ("src/lt_cred_mech.rs", "verif_lt.rs"),
+            ("src/message.rs", "verif_message.rs"),
+            ("src/lib.rs", "verif_iter.rs"),
+        ],
+    },
 }
 
 
@@ -208,7 +219,10 @@ def inject(scratch, builds):
             from . import slice_build
             info["slice"] = slice_build.assemble(scratch, VERIF)
             continue
-        cdir = os.path.join(scratch.src, spec["dir"])
+        if b == "agentshim":
+            from . import slice_build
+            info["agentshim"] = slice_build.assemble_agentshim(scratch, VERIF)
+        cdir = os.path.normpath(os.path.join(scratch.src, spec["dir"]))
         hdir = os.path.join(VERIF, "harness", b)
         for anchor, hf in spec["inject"]:
             src = os.path.join(hdir, hf)
@@ -348,7 +362,17 @@ def playback(scratch, h, res):
     r2 = run_kani(scratch, h, extra=["-Z", "concrete-playback", "--concrete-playback=print"],
                   timeout=h.timeout * 2, logname=h.name.replace("::", "__") + ".playback")
     log = open(r2["log"], errors="replace").read()
-    m = re.search(r"```\n(.*?)```", log, re.S)
+    # one test per failed check AND per satisfied cover is printed: keep the failing checks' tests
+    blocks = [b for b in re.findall(r"```\n(.*?)```", log, re.S) if "Check for `cover`" not in b]
+    m = None
+    if blocks:
+        class _M:
+            def __init__(self, t):
+                self.t = t
+
+            def group(self, i):
+                return self.t
+        m = _M("\n".join(blocks[:3]))
     rdir = os.path.join(VERIF, "replays")
     os.makedirs(rdir, exist_ok=True)
     short = h.name.split("::")[-1]
@@ -364,6 +388,7 @@ def playback(scratch, h, res):
         if h.playback:
             # append the test to the harness module in the scratch copy and run it natively
             tname = re.search(r"fn (kani_concrete_playback_\w+)", test)
+            tnames = re.findall(r"fn (kani_concrete_playback_\w+)", test)
             hfile = None
             for anchor, hf in spec["inject"]:
                 if hf[:-3] == h.name.split("::")[-2]:
@@ -378,7 +403,7 @@ def playback(scratch, h, res):
                     cmd = ["cargo", "kani", "playback", "-Z", "concrete-playback"]
                     if spec["features"]:
                         cmd += ["--features", spec["features"]]
-                    cmd += ["--", tname.group(1)]
+                    cmd += ["--", "kani_concrete_playback_"]
                     env = dict(os.environ, CARGO_NET_OFFLINE="true",
                                CARGO_TARGET_DIR=os.path.join(scratch.base, "tgt_playback"))
                     if prof:
